@@ -276,6 +276,8 @@ impl PacketBuilder {
         let len = buffer.len() - encode_start;
         #[cfg(feature = "quinn_rs_quinn_verif")]
         conn.verif_record_tx_plain(self.space, self.exact_number, &verif_plain);
+        #[cfg(feature = "quinn_rs_quinn_verif")]
+        conn.verif_record_tx_meta(encode_start, len, !self.short_header, self.ack_eliciting);
         conn.config.qlog_sink.emit_packet_sent(
             self.exact_number,
             len,
